@@ -536,7 +536,7 @@ func stGenChallenge(h *Hist, r *mon.Rand) *Call {
 	st := h.S.St
 	now := int64(h.W.Now)
 	// validators must have reported within the last hour
-	if r.Chance(0.9) {
+	if r.Chance(0.9) || st.NoHostile {
 		need := h.stConf().ValidatorsPerChallenge + r.Intn(2)
 		var stale []*stProv
 		for _, p := range stShuffled(r, st.live(st.Validators)) {
@@ -646,16 +646,16 @@ func stChallengeResponse(h *Hist, r *mon.Rand) *Call {
 	results := make([]bool, len(vals))
 	kind := "pass-all"
 	switch x := r.Intn(10); {
-	case x < 6:
+	case x < 5:
 		for i := range results {
 			results[i] = true
 		}
-	case x < 8:
+	case x < 7:
 		kind = "pass-majority"
 		for i := range results {
 			results[i] = i != 0
 		}
-	case x == 8:
+	case x == 7:
 		kind = "fail-minority"
 		results[0] = true
 	default:
@@ -750,7 +750,7 @@ func stMarkerOps() []OpDef {
 	gen := OpDef{Name: "storage.generate_challenge", Tags: []string{"storage", "challenge", "C12"}, Build: stGenChallenge}
 	resp := OpDef{Name: "storage.challenge_response", Tags: []string{"storage", "challenge", "C12", "C14"}, Build: stChallengeResponse}
 	return []OpDef{
-		commit, commit, commit, read, read, gen, gen, resp, resp,
+		commit, commit, commit, read, read, gen, gen, gen, resp, resp, resp, resp,
 		{Name: "storage.read_pool_lock", Tags: []string{"storage", "read", "C15"}, Build: func(h *Hist, r *mon.Rand) *Call { return stReadPoolLock(h, r, nil) }},
 		{Name: "storage.read_pool_unlock", Tags: []string{"storage", "read", "C15"}, Build: stReadPoolUnlock},
 		{Name: "storage.blobber_block_rewards", Tags: []string{"storage"}, Build: func(h *Hist, r *mon.Rand) *Call {
